@@ -2,6 +2,8 @@ package checks
 
 import (
 	"fmt"
+	"os"
+	"sort"
 	"strings"
 
 	"github.com/alpacahq/marketstore/v4/verif/mc"
@@ -17,6 +19,7 @@ import (
 
 // scenario is one harness: threads + environment + oracle.
 type scenario struct {
+	races bool // data races (happens-before, rt/vrt/hb.go) are violations of the property this scenario belongs to
 	name  string
 	cfg   func(*vrt.Sched)
 	body  func(x *execCtx) // runs as thread "main"
@@ -46,6 +49,25 @@ type schedSpec struct {
 type conflictSet struct {
 	acc  map[string]map[string]bool // object -> thread -> wrote
 	grew bool
+	// racy: access sites ("var@file:line") that took part in a happens-before race in some execution of the
+	// discovery pass; accesses at these sites are scheduling points (so the EFFECTS of the race are explored
+	// within the bound). Frozen after discovery: choice numbering must not change during the exploration.
+	racy   map[string]bool
+	frozen bool
+}
+
+func (cs *conflictSet) noteRaces(sch *vrt.Sched) {
+	if cs.frozen {
+		return
+	}
+	for _, r := range sch.Races {
+		for _, st := range []string{r.Var + "@" + r.SiteA, r.Var + "@" + r.SiteB} {
+			if !cs.racy[st] {
+				cs.racy[st] = true
+				cs.grew = true
+			}
+		}
+	}
 }
 
 func (cs *conflictSet) shared(kind, obj, thread string) bool {
@@ -93,7 +115,7 @@ func threadClass(name string) string {
 func runSchedule(sc *scenario, prefix []int, opts [][]string) (*execCtx, *vrt.Sched) {
 	cs := conflictSets[sc.name]
 	if cs == nil {
-		cs = &conflictSet{acc: map[string]map[string]bool{}}
+		cs = &conflictSet{acc: map[string]map[string]bool{}, racy: map[string]bool{}}
 		conflictSets[sc.name] = cs
 	}
 	x := &execCtx{data: map[string]any{}}
@@ -101,11 +123,18 @@ func runSchedule(sc *scenario, prefix []int, opts [][]string) (*execCtx, *vrt.Sc
 	sch := vrt.Run(prefix, func(s *vrt.Sched) {
 		s.PrefixOpts = opts
 		s.MaxStep = 100000
-		s.SharedObj = func(kind, obj, thread string) bool { return cs.shared(kind, obj, threadClass(thread)) }
+		s.SharedObj = func(kind, obj, thread string) bool {
+			if kind == "mem" {
+				return true
+			}
+			return cs.shared(kind, obj, threadClass(thread))
+		}
+		s.MemPoint = func(site string) bool { return cs.racy[site] }
 		if sc.cfg != nil {
 			sc.cfg(s)
 		}
 	}, func() { sc.body(x) })
+	cs.noteRaces(sch)
 	return x, sch
 }
 
@@ -165,6 +194,7 @@ func schedEnum(scens []*scenario, bound func(c *mc.Ctx, scen int) int) func(c *m
 					break
 				}
 			}
+			conflictSets[sc.name].frozen = true
 			_, root = runSchedule(sc, nil, nil)
 			yield(schedSpec{Scen: si, Bound: b, Single: true})
 			if b == 0 {
@@ -209,6 +239,15 @@ func schedRun(scens []*scenario, prop string) func(c *mc.Ctx, s schedSpec) {
 			}
 			if x.failed != "" {
 				c.ViolateWith("harness-failed|"+sc.name, where+": "+x.failed, rep)
+			}
+			c.Count("hb_races_seen", int64(len(sch.Races)))
+			if sc.races || os.Getenv("VERIF_ALLRACES") != "" { // the variable is a development aid: list races in scenarios of other properties
+				for _, r := range sch.Races {
+					kinds := []string{r.KindA, r.KindB}
+					sort.Strings(kinds)
+					c.ViolateWith("data-race|"+r.Var+"|"+kinds[0]+"-"+kinds[1], fmt.Sprintf("%s: data race (no happens-before order between the two accesses) on %s: %s at %s by thread %s / %s at %s by thread %s",
+						where, r.Var, r.KindA, r.SiteA, r.ThrA, r.KindB, r.SiteB, r.ThrB), rep)
+				}
 			}
 			vs := sc.judge(x, sch)
 			for _, v := range vs {
